@@ -373,6 +373,18 @@ class Exec:
         st.store["result"] = val
         for nm, e in self.c.ensures.items():
             self.oblige(st, "post", nm, self.spec_bool(e, st))
+        if self.c.ensures_each:
+            if not isinstance(val, VList):
+                raise Unsupported("ensures_each on a non-list result")
+            if val.ek is not None:
+                kk = fresh("k", I)
+                view = st.clone()
+                view.in_binder += 1
+                view.store["node"] = VRef(val.arr[kk])
+                for nm, e in self.c.ensures_each.items():
+                    if nm in getattr(val, "established", ()):
+                        continue  # proved for the arbitrary element where the list was built (obligation each/<nm>)
+                    self.oblige(st, "post-each", nm, z3.ForAll([kk], z3.Implies(z3.And(0 <= kk, kk < val.n), self.spec_bool(e, view))))
         self.check_frame(st)
         self.vacuity(st, "return")
 
@@ -401,7 +413,11 @@ class Exec:
                     raise Unsupported("predicate frames: use VRegion")
                 else:
                     raise Unsupported(f"modifies target {a}")
-            self.oblige(st, "frame/write", f, z3.ForAll([r], z3.Implies(z3.And(*conds), st.heap[f][r] == e.heap[f][r])))
+            if f == "children":
+                kf = fresh("k", I)
+                self.oblige(st, "frame/write", f, z3.ForAll([r, kf], z3.Implies(z3.And(*conds, 0 <= kf, kf < e.heap["nchildren"][r]), st.heap[f][r][kf] == e.heap[f][r][kf])))
+            else:
+                self.oblige(st, "frame/write", f, z3.ForAll([r], z3.Implies(z3.And(*conds), st.heap[f][r] == e.heap[f][r])))
 
     def check_raise(self, st: State, exc):
         name, desc, line = exc
@@ -630,7 +646,28 @@ class Exec:
     # ------------------------------------------------------------------ loops
     def loop_spec(self, node) -> tuple[int, Loop]:
         k = self.loops.index(node) + 1
+        if k not in self.c.loops and self.c.collector and self.call_depth == 0 and self.is_outermost(node):
+            return k, self.collector_loop()
         return k, self.c.loops.get(k, Loop())
+
+    def is_outermost(self, node):
+        for other in self.loops:
+            if other is not node and any(n is node for n in ast.walk(other)):
+                return False
+        return True
+
+    def collector_loop(self) -> Loop:
+        """Standard invariant of a loop that appends freshly built nodes to the result list."""
+        out = self.c.collector
+        inv = {}
+        for nm, e in self.c.ensures_each.items():
+            inv[f"each-{nm}"] = f"forall(range(len({out})), lambda k_: (lambda node: {e})({out}[k_]))"
+        inv["collected-are-allocated"] = f"forall(range(len({out})), lambda k_: old(alloc()) <= {out}[k_] and {out}[k_] < alloc())"
+        inv["collected-are-distinct"] = f"forall((range(len({out})), range(len({out}))), lambda k1_, k2_: implies(k1_ < k2_, {out}[k1_] != {out}[k2_]))"
+        inv["frame"] = ("forall(refs, lambda r: implies(r < old(alloc()), r.start == old(r.start) and r.end == old(r.end) and r.parent == old(r.parent) "
+                        "and r.value == old(r.value) and r.type == old(r.type) and r.obfuscation == old(r.obfuscation) and r.own == old(r.own) and nchildren(r) == old(nchildren(r)) "
+                        "and forall(range(nchildren(r)), lambda k: child_at(r, k) == old(child_at(r, k)))))")
+        return Loop(inv=inv)
 
     def heap_written_in(self, stmts) -> set[str]:
         """Which heap arrays a block may write (syntactic over-approximation)."""
@@ -1604,6 +1641,35 @@ class Exec:
                 return self.inline_lambda(fn, args, st)
             raise Unsupported(f"call of nested function {fn.name} inside an expression (only at statement level)")
         if tag == "repo":
+            mn, fn_ = split_qualname(r[1])
+            fdef = module_info(mn).funcs.get(fn_)
+            body = [b for b in (fdef.body if fdef else []) if not (isinstance(b, ast.Expr) and isinstance(b.value, ast.Constant))]
+            if fdef is not None and len(body) == 1 and isinstance(body[0], ast.Return) and self.call_depth < 6:
+                # a single-expression function: evaluated in place
+                args, kwargs = self.eval_args(node, st)
+                params = [a.arg for a in fdef.args.args]
+                defaults = fdef.args.defaults
+                nd = len(defaults)
+                saved, saved_mod = st.store, getattr(self, "cur_module", None)
+                new = {}
+                for k_, p_ in enumerate(params):
+                    if k_ < len(args):
+                        new[p_] = args[k_]
+                    elif p_ in kwargs:
+                        new[p_] = kwargs[p_]
+                    elif k_ >= len(params) - nd:
+                        new[p_] = self.eval(defaults[k_ - (len(params) - nd)], st)
+                    else:
+                        raise Unsupported(f"missing argument {p_}")
+                st.store = new
+                self.cur_module = module_info(mn).mod
+                self.call_depth += 1
+                try:
+                    return self.eval(body[0].value, st)
+                finally:
+                    self.call_depth -= 1
+                    st.store = saved
+                    self.cur_module = saved_mod
             raise Unsupported(f"call of {r[1]} without a contract inside an expression")
         if tag == "callable":
             args, kwargs = self.eval_args(node, st)
@@ -1689,7 +1755,12 @@ class Exec:
         if fn.module is not None:
             self.cur_module = fn.module
             self.loops = loops_in_order(node)
-            self.c = CONTRACTS.get(fn.name, Contract(fn.name))
+            callee_c = CONTRACTS.get(fn.name, Contract(fn.name))
+            if not callee_c.ensures_each and saved_c.ensures_each:
+                callee_c = copy.copy(callee_c)
+                callee_c.ensures_each = saved_c.ensures_each  # the inlined callee builds the caller's result list
+                callee_c.raises = saved_c.raises
+            self.c = callee_c
         self.call_depth += 1
         try:
             res = self.exec_block(node.body, st)
